@@ -90,7 +90,9 @@ def prepare(ctx):
     """Translator tie (see gen_tie.py): the statements of BaseART.step_fit are regenerated from the source and the
     theorems about the generated definition are re-checked"""
     from .gen_tie import gen_prepare
-    gen_prepare(ctx, ['Control.step_fit_refines', 'Control.step_fit_counts'], "BaseART.step_fit (translated control flow): sample counter and per-category counters")
+    gen_prepare(ctx, ['Control.step_fit_refines', 'Control.step_fit_counts', 'Control.partial_fit_loop', 'Control.partial_fit_spec',
+                      'Control.fit_spec', 'Control.fitEpochs_one', 'Control.scalar_gcontract', 'Control.scalar_fit',
+                      'Control.scalar_partial_fit'], "BaseART.step_fit / partial_fit / fit (translated statements): counters, labels vector, one epoch = the model fit")
 
 
 def run(ctx):
